@@ -1,19 +1,323 @@
 package main
 
 import (
+	"encoding/json"
+	"flag"
 	"fmt"
-	"golang.org/x/tools/go/packages"
-	"golang.org/x/tools/go/ssa"
-	"golang.org/x/tools/go/ssa/ssautil"
+	"os"
+	"path/filepath"
+	"sort"
+	"strconv"
+	"strings"
+	"time"
 )
 
+type KnownFinding struct {
+	Property   string `json:"property"`
+	Obligation string `json:"obligation"`
+	What       string `json:"what"`
+	Input      string `json:"input,omitempty"`
+}
+
+type KnownFile struct {
+	Findings []KnownFinding `json:"findings"`
+	Fixed    []string       `json:"fixed"`
+}
+
 func main() {
-	cfg := &packages.Config{Mode: packages.LoadAllSyntax, Dir: "/repo", BuildFlags: []string{"-tags=verif"}}
-	pkgs, err := packages.Load(cfg, "./feat")
-	if err != nil {
-		panic(err)
+	if len(os.Args) < 2 {
+		fmt.Fprintln(os.Stderr, "usage: govc check|list|dump ...")
+		os.Exit(2)
 	}
-	prog, spkgs := ssautil.AllPackages(pkgs, ssa.NaiveForm|ssa.GlobalDebug)
-	prog.Build()
-	fmt.Println(spkgs[0].Func("OneToZero"))
+	switch os.Args[1] {
+	case "check":
+		os.Exit(cmdCheck(os.Args[2:]))
+	case "list":
+		os.Exit(cmdList(os.Args[2:]))
+	default:
+		fmt.Fprintln(os.Stderr, "unknown command", os.Args[1])
+		os.Exit(2)
+	}
+}
+
+func cmdList(args []string) int {
+	fs := flag.NewFlagSet("list", flag.ExitOnError)
+	repo := fs.String("repo", "/repo", "repository")
+	specs := fs.String("specs", "/verif/specs", "trusted contract directory")
+	fs.Parse(args)
+	p, err := LoadProgram(*repo, *specs, []string{"./..."})
+	if err != nil {
+		fmt.Fprintln(os.Stderr, err)
+		return 2
+	}
+	for _, k := range p.Contracts.SortedKeys() {
+		c := p.Contracts.Funcs[k]
+		fmt.Printf("%-80s props=%v trusted=%v\n", k, c.Props, c.Trusted)
+	}
+	return 0
+}
+
+func cmdCheck(args []string) int {
+	fs := flag.NewFlagSet("check", flag.ExitOnError)
+	repo := fs.String("repo", "/repo", "repository working tree")
+	specs := fs.String("specs", "/verif/specs", "trusted contract directory")
+	prop := fs.String("prop", "", "property id")
+	tier := fs.String("tier", "quick", "quick|thorough")
+	evidence := fs.String("evidence", "", "evidence file to write")
+	known := fs.String("known", "/verif/known_findings.json", "known findings file")
+	work := fs.String("work", "/verif/work", "scratch directory for queries")
+	replays := fs.String("replays", "/verif/replays", "replay directory")
+	only := fs.String("func", "", "restrict to functions whose key contains this text (debugging)")
+	keep := fs.Bool("keep", false, "keep all generated .smt2 files")
+	verbose := fs.Bool("v", false, "verbose")
+	noReplay := fs.Bool("noreplay", false, "do not try to replay counterexamples")
+	fs.Parse(args)
+	if *prop == "" {
+		fmt.Fprintln(os.Stderr, "-prop required")
+		return 2
+	}
+	t0 := time.Now()
+	seed := 0
+	if s := os.Getenv("VERIF_SEED"); s != "" {
+		seed, _ = strconv.Atoi(s)
+	}
+	p, err := LoadProgram(*repo, *specs, []string{"./..."})
+	if err != nil {
+		// the tree does not even load: nothing can be generated
+		fmt.Fprintln(os.Stderr, "load error:", err)
+		return reportLoadFailure(*prop, *tier, seed, *evidence, *replays, err, t0)
+	}
+	loadSecs := time.Since(t0).Seconds()
+	var reps []*FuncReport
+	for _, k := range p.Contracts.SortedKeys() {
+		c := p.Contracts.Funcs[k]
+		if c.Trusted || !hasProp(c, *prop) {
+			continue
+		}
+		if *only != "" && !strings.Contains(k, *only) {
+			continue
+		}
+		rep := p.VerifyFunction(c, Options{InlineDepth: 4})
+		reps = append(reps, rep)
+	}
+	genSecs := time.Since(t0).Seconds() - loadSecs
+	wdir := filepath.Join(*work, *prop)
+	os.RemoveAll(wdir)
+	os.MkdirAll(wdir, 0o755)
+	opt := SolveOptions{Timeout: 10 * time.Second, Seeds: []int{seed}, WorkDir: wdir, Parallel: 6, KeepAll: *keep}
+	if *tier == "thorough" {
+		opt.Timeout = 60 * time.Second
+		opt.Seeds = []int{seed, seed + 1, seed + 2}
+	}
+	Discharge(reps, opt)
+	return report(p, *prop, *tier, seed, reps, *evidence, *known, *replays, *repo, t0, loadSecs, genSecs, *verbose, *noReplay)
+}
+
+func hasProp(c *Contract, p string) bool {
+	for _, x := range c.Props {
+		if x == p {
+			return true
+		}
+	}
+	return false
+}
+
+func reportLoadFailure(prop, tier string, seed int, evidence, replays string, err error, t0 time.Time) int {
+	rdir := filepath.Join(replays, prop)
+	os.MkdirAll(rdir, 0o755)
+	path := filepath.Join(rdir, "load-failure.json")
+	writeJSON(path, map[string]interface{}{"obligation": "contract-target:load", "verifier_output": err.Error()})
+	fmt.Printf("VIOLATION property=%s replay=%s no-failing-input-found\n", prop, path)
+	if evidence != "" {
+		writeJSON(evidence, map[string]interface{}{
+			"property_id": prop, "tier": tier, "seed": seed, "level": "other",
+			"coverage":   map[string]interface{}{"explanation": "the repository (with -tags verif) failed to load/type-check, no obligation could be generated: " + err.Error()},
+			"wall_s":     time.Since(t0).Seconds(),
+			"violations": 1,
+		})
+	}
+	return 1
+}
+
+func writeJSON(path string, v interface{}) {
+	os.MkdirAll(filepath.Dir(path), 0o755)
+	b, _ := json.MarshalIndent(v, "", " ")
+	os.WriteFile(path, append(b, '\n'), 0o644)
+}
+
+func report(p *Program, prop, tier string, seed int, reps []*FuncReport, evidence, knownPath, replays, repo string, t0 time.Time, loadSecs, genSecs float64, verbose, noReplay bool) int {
+	var kf KnownFile
+	if b, err := os.ReadFile(knownPath); err == nil {
+		json.Unmarshal(b, &kf)
+	}
+	known := map[string]KnownFinding{}
+	for _, f := range kf.Findings {
+		if f.Property == prop {
+			known[f.Obligation] = f
+		}
+	}
+	rdir := filepath.Join(replays, prop)
+	os.RemoveAll(rdir)
+	total, proved := 0, 0
+	byBackend := map[string]int{}
+	solverTime := 0.0
+	var funcs []string
+	var samples []interface{}
+	assumptions := map[string]bool{}
+	unmodelled := map[string]bool{}
+	violations := 0
+	var knownLines, violLines []string
+	vacuityChecks := 0
+	var unstable []string
+	for _, r := range reps {
+		funcs = append(funcs, r.Short)
+		if r.Err != "" {
+			// the function could not be translated: every obligation it should have generated is unaccounted for
+			total++
+			name := r.Short + "#translate"
+			if kfnd, ok := known[name]; ok {
+				knownLines = append(knownLines, fmt.Sprintf("KNOWN-FINDING: property=%s %s %s", prop, name, kfnd.What))
+				continue
+			}
+			violations++
+			path := filepath.Join(rdir, safeFile(name)+".json")
+			writeJSON(path, map[string]interface{}{"obligation": name, "verifier_output": r.Err, "contract": r.Contract.Where})
+			violLines = append(violLines, fmt.Sprintf("VIOLATION property=%s replay=%s no-failing-input-found", prop, path))
+			fmt.Fprintf(os.Stderr, "  %s: %s\n", name, r.Err)
+			continue
+		}
+		for a := range r.VC.Assumptions {
+			assumptions[a] = true
+		}
+		for a := range r.VC.Unmodelled {
+			unmodelled[a] = true
+		}
+		for _, o := range r.VC.Obls {
+			solverTime += o.Time
+			if o.ExpectSat {
+				vacuityChecks++
+				if o.Status == "failed" {
+					violations++
+					path := filepath.Join(rdir, safeFile(o.Name)+".json")
+					writeJSON(path, map[string]interface{}{"obligation": o.Name, "verifier_output": o.Output, "smt2": o.SmtFile, "note": "broken check (vacuous contract), not a property violation"})
+					violLines = append(violLines, fmt.Sprintf("VIOLATION property=%s replay=%s no-failing-input-found", prop, path))
+				}
+				continue
+			}
+			total++
+			if verbose {
+				fmt.Fprintf(os.Stderr, "  %-8s %-7s %6.2fs %s\n", o.Status, o.Solver, o.Time, o.Name)
+			}
+			if o.Status == "proved" {
+				proved++
+				byBackend[o.Solver]++
+				if len(samples) < 8 {
+					samples = append(samples, map[string]interface{}{"obligation": o.Name, "kind": o.Kind, "clause": o.Descr, "where": o.Where, "solver": o.Solver, "secs": round3(o.Time)})
+				}
+				continue
+			}
+			if kfnd, ok := known[o.Name]; ok {
+				knownLines = append(knownLines, fmt.Sprintf("KNOWN-FINDING: property=%s %s %s", prop, o.Name, kfnd.What))
+				continue
+			}
+			violations++
+			path := filepath.Join(rdir, safeFile(o.Name)+".json")
+			rp := map[string]interface{}{"obligation": o.Name, "kind": o.Kind, "clause": o.Descr, "where": o.Where, "status": o.Status,
+				"solver": o.Solver, "solvers": o.ByWhich, "verifier_output": firstLines(o.Output+o.Model, 400), "smt2": o.SmtFile}
+			suffix := " no-failing-input-found"
+			if o.Status == "failed" && !noReplay {
+				if ok, info := tryReplay(p, r, o, repo, rdir); ok {
+					suffix = ""
+					rp["replay"] = info
+				} else if info != nil {
+					rp["replay"] = info
+				}
+			}
+			writeJSON(path, rp)
+			violLines = append(violLines, fmt.Sprintf("VIOLATION property=%s replay=%s%s", prop, path, suffix))
+			fmt.Fprintf(os.Stderr, "  FAILED %s (%s by %s) at %s\n      %s\n", o.Name, o.Status, o.Solver, o.Where, o.Descr)
+		}
+	}
+	// every known finding must still be reported by a failing obligation; a finding that no longer fails is stale but harmless
+	sort.Strings(knownLines)
+	for _, l := range knownLines {
+		fmt.Println(l)
+	}
+	for _, l := range violLines {
+		fmt.Println(l)
+	}
+	if len(reps) == 0 {
+		fmt.Printf("VIOLATION property=%s replay=%s no-failing-input-found\n", prop, filepath.Join(rdir, "no-contracts.json"))
+		writeJSON(filepath.Join(rdir, "no-contracts.json"), map[string]interface{}{"obligation": "contract-target", "verifier_output": "no function under contract carries this property"})
+		violations++
+	}
+	wall := time.Since(t0).Seconds()
+	if evidence != "" {
+		var as, um []string
+		for a := range assumptions {
+			as = append(as, a)
+		}
+		for a := range unmodelled {
+			um = append(um, a)
+		}
+		sort.Strings(as)
+		sort.Strings(um)
+		as = append(as, "int, int64, uint, uint64 are mathematical integers (no overflow); sized integer types wrap exactly",
+			"float64 is modelled as Real",
+			"entry heap is well formed: slices within capacity, distinct struct objects do not overlap, interior pointers are not stored",
+			"no other goroutine runs during the call")
+		sort.Strings(funcs)
+		discharged := proved
+		cov := map[string]interface{}{
+			"obligations":              total - len(knownLines),
+			"discharged":               discharged,
+			"known_finding_obligations": len(knownLines),
+			"checker_cmd":              fmt.Sprintf("/verif/check %s --tier %s", prop, tier),
+			"trusted_base":             []string{"go/packages + go/ssa (x/tools v0.29.0, NaiveForm)", "govc VC generator (/verif/govc)", "z3 5.1.0 (z3-new), z3 4.8.12, cvc5 1.0.3"},
+			"by_backend":               byBackend,
+			"solver_time_s":            round3(solverTime),
+			"load_s":                   round3(loadSecs),
+			"vcgen_s":                  round3(genSecs),
+			"functions_under_contract": funcs,
+			"vacuity_checks":           vacuityChecks,
+			"unmodelled":               um,
+			"samples":                  samples,
+			"unstable":                 unstable,
+		}
+		if extra := loadExtraCoverage(prop); extra != nil {
+			for k, v := range extra {
+				cov[k] = v
+			}
+		}
+		ev := map[string]interface{}{
+			"property_id": prop, "tier": tier, "seed": seed, "level": "proof",
+			"coverage": cov, "assumptions": as, "wall_s": round3(wall), "violations": violations,
+		}
+		if total-len(knownLines) == 0 || discharged == 0 {
+			ev["level"] = "other"
+			cov["explanation"] = "no obligation was discharged in this run"
+		}
+		writeJSON(evidence, ev)
+	}
+	fmt.Fprintf(os.Stderr, "%s: %d obligations, %d proved, %d known findings, %d violations, %d vacuity checks; load %.1fs gen %.1fs total %.1fs\n",
+		prop, total, proved, len(knownLines), violations, vacuityChecks, loadSecs, genSecs, wall)
+	if violations > 0 {
+		return 1
+	}
+	return 0
+}
+
+func round3(f float64) float64 { return float64(int(f*1000+0.5)) / 1000 }
+
+// loadExtraCoverage merges static per-property notes (not_covered clauses etc.) kept in /verif/coverage/<id>.json.
+func loadExtraCoverage(prop string) map[string]interface{} {
+	b, err := os.ReadFile(filepath.Join("/verif/coverage", prop+".json"))
+	if err != nil {
+		return nil
+	}
+	var m map[string]interface{}
+	if json.Unmarshal(b, &m) != nil {
+		return nil
+	}
+	return m
 }
